@@ -83,6 +83,16 @@ def targeted(gates):
          "(func c3 int (params (int k)) ((decl s int n (lit 0)) (decl s int m (lit 7)) (compound add (var n) (var k)) (compound add (var m) (lit 1)) (ret (bin add (bin mul (var n) (lit 1000)) (var m)))))")
     yield prog(f, "(print (e (call c1)) (e (call c2)) (e (call c1)) (e (call c1)) (e (call c2))) "
                   "(print (e (call c3 (lit 1))) (e (call c3 (lit 2))) (e (call c1)) (e (call c3 (lit 3))))")
+    # a function that owns statics calls OTHER functions (with a same-named static, with a different one,
+    # with none) and uses its own statics again afterwards
+    f = ("(func leaf int (params (int q)) ((ret (bin add (var q) (lit 1))))) "
+         "(func nid int (params) ((decl s int count (lit 100)) (compound add (var count) (lit 1)) (ret (var count)))) "
+         "(func other int (params) ((decl s int zz (lit 7)) (compound add (var zz) (lit 2)) (ret (var zz)))) "
+         "(func ticket int (params) ((decl s int count (lit 10)) (compound add (var count) (lit 1)) "
+         "(decl - int i1 (call nid)) (compound add (var count) (lit 10)) (decl - int i2 (call other)) (compound add (var count) (lit 100)) "
+         "(decl - int i3 (call leaf (var i1))) (compound add (var count) (lit 1000)) (print (s \"ticket\") (e (var count)) (e (var i1)) (e (var i2)) (e (var i3))) (ret (var count)))) "
+         "(func logc int (params) ((decl s int calls (lit 0)) (compound add (var calls) (lit 1)) (expr (call leaf (lit 3))) (compound add (var calls) (lit 1)) (ret (var calls))))")
+    yield prog(f, "(print (e (call ticket)) (e (call nid)) (e (call ticket)) (e (call other))) (print (e (call logc)) (e (call logc)) (e (call nid)))")
     f = ("(func fact int (params (int n)) ((decl s int calls (lit 0)) (compound add (var calls) (lit 1)) "
          "(if (bin le (var n) (lit 1)) ((ret (var calls)))) (ret (call fact (bin sub (var n) (lit 1))))))")
     yield prog(f, "(print (e (call fact (lit 5))) (e (call fact (lit 3))))")
